@@ -181,7 +181,7 @@ PayloadValid(in) == /\ ~RepeatsAction(in)
 (* null / absent / wrongly typed, a null list element); for the others the spec     *)
 (* makes no claim beyond "an acknowledgement is returned".                          *)
 Mutations == {"null", "absent", "emptyobj", "emptyarr", "string", "number", "bool", "negative", "two64", "huge",
-              "emptystr", "longstr", "numstr", "dupkey", "dupsame", "deep", "deepobj", "rename",
+              "emptystr", "longstr", "numstr", "dupkey", "dupsame", "deep", "deepobj", "rename", "unknown3",
               "trailgarbage", "trailobj", "trailbrace", "leadgarbage", "tworoots"}      \* (the last five apply to the whole document only)
 DupMuts == {"dupkey", "dupsame"}
 WrongTypeForList == Mutations \ (DupMuts \cup {"null", "absent", "emptyarr"})
